@@ -96,7 +96,7 @@ def run(ctx):
     hs = ["k_dec_word", "k_dec_words", "k_dec_bit64", "k_dec_string_small", "k_words_view"]
     if ctx.tier == "thorough":
         hs += ["k_dec_string", "k_dec_typed", "k_dec_limit"]
-    res = kani.run_many(hs, cap_s=420 if ctx.tier == "quick" else 2400)
+    res = kani.run_many(hs, cap_s=1500 if ctx.tier == "quick" else 3000)
     kani.settle(ctx, res, lambda h: h[2:])
     ctx.extra["states"] = len(chosen)
     ctx.extra["transitions"] = npaths
